@@ -60,6 +60,14 @@ fn errkind(e: &std::io::Error) -> String {
 
 struct Seg {
     wal: Option<Walrus>,
+    /// further instances of the same process (`inst=N` cases): slot k-2 holds instance k;
+    /// `wal`/`data_dir`/key "k" are instance 1
+    others: Vec<Option<Walrus>>,
+    /// instance selected by the current op line (1-based)
+    cur: usize,
+    /// instances >= 2 use their own data dir (<data_dir>/d<k>, key "k") instead of their own
+    /// key (<data_dir>, key "k<k>")
+    idirs: bool,
     data_dir: PathBuf,
     mode: ReadConsistency,
     sched: FsyncSchedule,
@@ -88,20 +96,88 @@ fn parse_sched(s: &str) -> FsyncSchedule {
 }
 
 impl Seg {
-    fn open(&mut self) -> String {
-        let dd = self.data_dir.clone();
+    /// (data dir, key) of instance k (1-based)
+    fn place(&self, k: usize) -> (PathBuf, String) {
+        if k <= 1 {
+            (self.data_dir.clone(), "k".to_string())
+        } else if self.idirs {
+            (self.data_dir.join(format!("d{}", k)), "k".to_string())
+        } else {
+            (self.data_dir.clone(), format!("k{}", k))
+        }
+    }
+
+    fn slot(&mut self, k: usize) -> &mut Option<Walrus> {
+        if k <= 1 {
+            &mut self.wal
+        } else {
+            &mut self.others[k - 2]
+        }
+    }
+
+    fn open_k(&mut self, k: usize) -> String {
+        let (dd, key) = self.place(k);
         let (mode, sched) = (self.mode, self.sched);
         let r = catch_unwind(AssertUnwindSafe(|| {
-            Walrus::builder().data_dir(dd).key("k").consistency(mode).fsync_schedule(sched).build()
+            Walrus::builder().data_dir(dd).key(&key).consistency(mode).fsync_schedule(sched).build()
         }));
         match r {
             Ok(Ok(w)) => {
-                self.wal = Some(w);
+                *self.slot(k) = Some(w);
                 "ok".into()
             }
             Ok(Err(e)) => errkind(&e),
             Err(_) => "panic".into(),
         }
+    }
+
+    fn open(&mut self) -> String {
+        self.open_k(1)
+    }
+
+    /// directory listing of instance k's namespace directory: `ls:<name>:<size>,...` (sorted)
+    fn listing(&self, k: usize) -> String {
+        let (dd, key) = self.place(k);
+        let root = dd.join(walrus_rust::wal::verif::sanitize_namespace(&key));
+        let mut v: Vec<String> = Vec::new();
+        if let Ok(rd) = std::fs::read_dir(&root) {
+            for e in rd.flatten() {
+                let md = e.metadata();
+                let (isdir, len) = md.map(|m| (m.is_dir(), m.len())).unwrap_or((false, 0));
+                v.push(format!("{}:{}", e.file_name().to_string_lossy(), if isdir { "dir".to_string() } else { len.to_string() }));
+            }
+        }
+        v.sort();
+        format!("ls:{}", v.join(","))
+    }
+
+    /// tracker snapshot + the tracker/removal lines traced since the previous TRK.
+    /// Before the dump it waits (bounded) until every file whose removal has been requested so
+    /// far is gone, so that what follows does not depend on the reclaimer thread's timing.
+    fn trk_dump(&self) -> String {
+        let keep = |l: &String| l.starts_with("T ") || l.split(' ').nth(1) == Some("remove");
+        let mut tr: Vec<String> = walrus_rust::wal::verif::drain_trace().into_iter().filter(keep).collect();
+        let mut wanted: Vec<PathBuf> = Vec::new();
+        for l in tr.iter() {
+            let w: Vec<&str> = l.split(' ').collect();
+            if w.len() >= 5 && w[0] == "T" && w[2] == "req" {
+                for base in [self.data_dir.parent().map(|p| p.to_path_buf()), Some(self.data_dir.clone())].into_iter().flatten() {
+                    wanted.push(base.join(w[4]));
+                }
+            }
+        }
+        let t0 = std::time::Instant::now();
+        while wanted.iter().any(|p| p.exists()) && t0.elapsed() < std::time::Duration::from_millis(400) {
+            std::thread::sleep(std::time::Duration::from_millis(2));
+        }
+        tr.extend(walrus_rust::wal::verif::drain_trace().into_iter().filter(keep));
+        let (files, blocks) = walrus_rust::wal::verif::trk_snapshot();
+        let fs: Vec<String> = files
+            .iter()
+            .map(|(p, l, c, t, a)| format!("{}:{}:{}:{}:{}", p, l, c, t, if *a { 1 } else { 0 }))
+            .collect();
+        let bs: Vec<String> = blocks.iter().map(|(i, p, c)| format!("{}:{}:{}", i, p, if *c { 1 } else { 0 })).collect();
+        format!("trk:{}|{}#{}", fs.join(";"), bs.join(";"), tr.join("|"))
     }
 
     /// identify returned bytes among the payloads this topic was ever offered
@@ -139,9 +215,25 @@ impl Seg {
     }
 
     fn op(&mut self, line: &str) -> Option<String> {
-        let t: Vec<&str> = line.split_whitespace().collect();
+        let mut t: Vec<&str> = line.split_whitespace().collect();
         if t.is_empty() {
             return Some("badcase".into());
+        }
+        // `@k <op ...>` selects instance k of a multi-instance case; default is instance 1
+        self.cur = 1;
+        let mut explicit = false;
+        if let Some(k) = t[0].strip_prefix('@') {
+            self.cur = k.parse().unwrap_or(1);
+            explicit = true;
+            t.remove(0);
+            if t.is_empty() || self.cur == 0 || self.cur > 1 + self.others.len() {
+                return Some("badcase".into());
+            }
+        }
+        if self.cur > 1 || explicit || !self.others.is_empty() {
+            if let Some(r) = self.multi_op(&t, explicit) {
+                return Some(r);
+            }
         }
         if t[0] == "REG" {
             let topic = topic_name(t[1]);
@@ -214,11 +306,17 @@ impl Seg {
             // C10: how many of this process's open descriptors on WAL files carry O_SYNC
             return Some(fds_report(&self.data_dir));
         }
+        if t[0] == "TRK" {
+            return Some(self.trk_dump());
+        }
+        if t[0] == "LS" {
+            return Some(self.listing(self.cur));
+        }
         if t[0] == "SLEEP" {
             std::thread::sleep(std::time::Duration::from_millis(t[1].parse().unwrap_or(1)));
             return Some("ok".into());
         }
-        let wal = match self.wal.as_ref() {
+        let wal = match if self.cur <= 1 { self.wal.as_ref() } else { self.others[self.cur - 2].as_ref() } {
             Some(w) => w,
             None => return Some("noinstance".into()),
         };
@@ -429,6 +527,40 @@ fn copy_tree(src: &std::path::Path, dst: &std::path::Path) -> std::io::Result<()
     Ok(())
 }
 
+impl Seg {
+    /// lifecycle ops of multi-instance cases: OPEN (all instances, in order), `@k REOPEN`,
+    /// `@k CLOSE`; an unprefixed REOPEN in a multi-instance case reopens every instance
+    fn multi_op(&mut self, t: &[&str], explicit: bool) -> Option<String> {
+        let n = 1 + self.others.len();
+        match t[0] {
+            "OPEN" | "REOPEN" if !explicit => {
+                for k in 1..=n {
+                    *self.slot(k) = None;
+                }
+                let mut res = String::from("ok");
+                for k in 1..=n {
+                    let r = self.open_k(k);
+                    if r != "ok" && res == "ok" {
+                        res = r;
+                    }
+                }
+                Some(res)
+            }
+            "OPEN" | "REOPEN" => {
+                let k = self.cur;
+                *self.slot(k) = None;
+                Some(self.open_k(k))
+            }
+            "CLOSE" => {
+                let k = self.cur;
+                *self.slot(k) = None;
+                Some("ok".into())
+            }
+            _ => None,
+        }
+    }
+}
+
 /// one process lifetime
 pub fn seg_main(args: &[String]) {
     if std::env::var("WH_PANIC").is_err() {
@@ -441,8 +573,16 @@ pub fn seg_main(args: &[String]) {
     } else {
         walrus_rust::enable_fd_backend();
     }
+    let ninst: usize = std::env::var("WH_INST").ok().and_then(|v| v.parse().ok()).unwrap_or(1).max(1);
+    if std::env::var("WH_TRK").is_ok() {
+        // record tracker calls (and I/O events) from the very first call of this lifetime
+        walrus_rust::wal::verif::start_trace();
+    }
     let mut seg = Seg {
         wal: None,
+        others: (1..ninst).map(|_| None).collect(),
+        cur: 1,
+        idirs: std::env::var("WH_IDIRS").is_ok(),
         data_dir,
         mode: parse_mode(&args[1]),
         sched: parse_sched(&args[3]),
@@ -474,7 +614,7 @@ struct Kid {
     rx: BufReader<ChildStdout>,
 }
 
-fn spawn(exe: &std::path::Path, dir: &PathBuf, mode: &str, backend: &str, sched: &str, reg: &[String]) -> Kid {
+fn spawn(exe: &std::path::Path, dir: &PathBuf, mode: &str, backend: &str, sched: &str, reg: &[String], extra: &[(String, String)]) -> Kid {
     // WH_VALGRIND=<log-file-prefix>: run the lifetime under memcheck (C11); errors end the
     // process with exit code 99 and are listed in <prefix>.<pid>
     let mut cmd = match std::env::var("WH_VALGRIND") {
@@ -495,6 +635,7 @@ fn spawn(exe: &std::path::Path, dir: &PathBuf, mode: &str, backend: &str, sched:
         .arg(mode)
         .arg(backend)
         .arg(sched)
+        .envs(extra.iter().cloned())
         .env("WALRUS_QUIET", "1")
         .stdin(Stdio::piped())
         .stdout(Stdio::piped())
@@ -535,6 +676,18 @@ fn finish(mut k: Kid) -> String {
     }
 }
 
+fn remove_named(dir: &std::path::Path, name: &str) {
+    if let Ok(rd) = std::fs::read_dir(dir) {
+        for e in rd.flatten() {
+            let p = e.path();
+            if p.is_dir() {
+                remove_named(&p, name);
+            } else if p.file_name().map(|n| n == name).unwrap_or(false) {
+                let _ = std::fs::remove_file(&p);
+            }
+        }
+    }
+}
 
 /// dispatcher
 pub fn engine_main(base: &str) {
@@ -545,6 +698,7 @@ pub fn engine_main(base: &str) {
     let mut kid: Option<Kid> = None;
     let mut dir = PathBuf::new();
     let (mut mode, mut backend, mut sched) = (String::new(), String::new(), String::new());
+    let mut extra: Vec<(String, String)> = Vec::new();
     let mut reg: Vec<String> = Vec::new();
     let mut case_no = 0u64;
     let keep = std::env::var("WH_KEEP").is_ok();
@@ -581,6 +735,18 @@ pub fn engine_main(base: &str) {
                     adopt = Some(v.to_string());
                 }
             }
+            extra.clear();
+            for kv in &t[2..] {
+                // inst=N: N instances in the process (ops prefixed @k); idirs=1: they differ by
+                // data dir instead of by key; trk=1: trace tracker calls from process start
+                if let Some(v) = kv.strip_prefix("inst=") {
+                    extra.push(("WH_INST".into(), v.to_string()));
+                } else if kv.strip_prefix("idirs=").is_some() {
+                    extra.push(("WH_IDIRS".into(), "1".into()));
+                } else if kv.strip_prefix("trk=").is_some() {
+                    extra.push(("WH_TRK".into(), "1".into()));
+                }
+            }
             for kv in &t[2..] {
                 if let Some(v) = kv.strip_prefix("mode=") {
                     mode = v.into();
@@ -597,7 +763,7 @@ pub fn engine_main(base: &str) {
                     continue;
                 }
             }
-            let mut k = spawn(&exe, &dir, &mode, &backend, &sched, &reg);
+            let mut k = spawn(&exe, &dir, &mode, &backend, &sched, &reg, &extra);
             if pretrace {
                 let _ = ask(&mut k, "TRACE");
             }
@@ -607,6 +773,7 @@ pub fn engine_main(base: &str) {
             continue;
         }
         // remember offered payloads so that a later process lifetime can identify them
+        let t: Vec<&str> = if t[0].starts_with('@') && t.len() > 1 { t[1..].to_vec() } else { t };
         match t[0] {
             "A" => reg.push(format!("REG {} {} {}", t[1], t[2], t[3])),
             "B" if t[2] != "-" => {
@@ -641,11 +808,16 @@ pub fn engine_main(base: &str) {
             writeln!(out, "{}", r).unwrap();
             continue;
         }
-        if t[0] == "RESTART" {
+        if t[0] == "RESTART" || t[0] == "RMIDX" {
             if let Some(k) = kid.take() {
                 finish(k);
             }
-            let mut k = spawn(&exe, &dir, &mode, &backend, &sched, &reg);
+            if t[0] == "RMIDX" {
+                // forget every persisted read position (all namespaces of the case) between two
+                // process lifetimes: the next lifetime delivers whatever is still on disk
+                remove_named(&dir, "read_offset_idx_index.db");
+            }
+            let mut k = spawn(&exe, &dir, &mode, &backend, &sched, &reg, &extra);
             let r = ask(&mut k, "OPEN");
             kid = Some(k);
             writeln!(out, "{}", r).unwrap();
